@@ -287,6 +287,88 @@ def handleSorted (v : SortVariant) (lim : RibQuery.Limits) (url : RibQuery.Url)
         (if req.inc.less then some (sortSectionIdx v s (l.getD [])) else none)
         (if req.inc.more then some (sortSectionIdx v s (m.getD [])) else none)
 
+/-! ## The repaired comparator (`proposed_fixes/vribquery-sort-sections-total-order.diff`)
+
+Total preorder: values of different JSON types by type rank, numbers by value, strings bytewise,
+arrays lexicographically then by length, objects lexicographically over their members in key
+order then by size. Selected by the driver flag `cmp=total`. -/
+
+def rank : J → Nat
+  | .null => 0 | .bool _ => 1 | .num _ => 2 | .str _ => 3 | .arr _ => 4 | .obj _ _ => 5
+
+mutual
+def cmpJsonT : J → J → Ordering
+  | .null, .null => .eq
+  | .bool a, .bool b => cmpBool a b
+  | .num a, .num b => cmpInt a.asF64 b.asF64
+  | .str a, .str b => cmpStr a b
+  | .arr a, .arr b => cmpArrT a b
+  | .obj ka a, .obj kb b => cmpObjT ka a kb b
+  | a, b => cmpNat (rank a) (rank b)
+def cmpArrT : List J → List J → Ordering
+  | [], [] => .eq
+  | [], _ :: _ => .lt
+  | _ :: _, [] => .gt
+  | x :: xs, y :: ys =>
+    match cmpJsonT x y with
+    | .lt => .lt
+    | .gt => .gt
+    | .eq => cmpArrT xs ys
+/-- members in key order (the objects of the model keep their keys sorted) -/
+def cmpObjT : List Str → List J → List Str → List J → Ordering
+  | k :: ks, v :: vs, k' :: ks', v' :: vs' =>
+    match cmpStr k k' with
+    | .lt => .lt
+    | .gt => .gt
+    | .eq =>
+      match cmpJsonT v v' with
+      | .lt => .lt
+      | .gt => .gt
+      | .eq => cmpObjT ks vs ks' vs'
+  | [], _, [], _ => .eq
+  | [], _, _ :: _, _ => .lt
+  | _ :: _, _, [], _ => .gt
+  | _ :: _, [], _ :: _, _ => .eq
+  | _ :: _, _ :: _, _ :: _, [] => .eq
+end
+
+def cmpKeysT : List Str → J → J → Ordering
+  | [], _, _ => .eq
+  | k :: ks, a, b =>
+    match pointer a k, pointer b k with
+    | none, none => .eq
+    | none, some _ => .lt
+    | some _, none => .gt
+    | some l, some r =>
+      match cmpJsonT l r with
+      | .lt => .lt
+      | .gt => .gt
+      | .eq => cmpKeysT ks a b
+
+def isLessT (keys : List Str) (a b : J) : Bool := cmpKeysT keys a b == .lt
+
+def sortSectionIdxT (v : SortVariant) (sort : Option Str) (base : List J) : List Nat :=
+  let tagged := base.zipIdx
+  let lt := fun (a b : J × Nat) => match sort with
+    | none => false
+    | some s => isLessT (keysOf s) a.1 b.1
+  if v.scope then (isort lt tagged).map (·.2)
+  else (tagged.flatMap fun e => isort lt [e]).map (·.2)
+
+def handleSortedT (v : SortVariant) (lim : RibQuery.Limits) (url : RibQuery.Url)
+    (d : List J) (l m : Option (List J)) : SortResp :=
+  match RibQuery.parseRequest lim url with
+  | .error _ => .badRequest
+  | .ok req =>
+    match req.format with
+    | .dump => .dump
+    | .other => .badRequest
+    | .json =>
+      let s := sortParam url.params
+      .json (sortSectionIdxT v s d)
+        (if req.inc.less then some (sortSectionIdxT v s (l.getD [])) else none)
+        (if req.inc.more then some (sortSectionIdxT v s (m.getD [])) else none)
+
 /-! ## The per-ingress listing (`handle_ingress_id_query`, `Rib::match_ingress_id`) -/
 
 inductive ListResp
